@@ -39,6 +39,8 @@ def imin (a b : Int) : Int := if b < a then b else a
 def imax (a b : Int) : Int := if b > a then b else a
 /-- `abs(a)` -/
 def iabs (a : Int) : Int := if a < 0 then -a else a
+/-- does the int fit a C `Py_ssize_t` (arguments CPython converts with the "n" format; outside: OverflowError) -/
+def ssizeOk (i : Int) : Bool := decide (-(2 : Int) ^ 63 ≤ i ∧ i < (2 : Int) ^ 63)
 /-- `bool(i)` -/
 def truthyInt (i : Int) : Bool := i != 0
 
